@@ -24,7 +24,12 @@ LAYOUTS = {
     'time-in-left-group': lambda t, p: '(%s AND %s) AND %s' % (t, p, p),
     'time-first-in-right-group': lambda t, p: '%s AND (%s AND %s)' % (p, t, p),
     'parenthesised': lambda t, p: '(%s) AND (%s)' % (t, p),
+    # user-written parentheses around the time condition / the whole WHERE (also when the time condition is the only conjunct)
+    'time-parens': lambda t, p: ' AND '.join(x for x in ('(%s)' % t, p) if x),
+    'time-double-parens': lambda t, p: ' AND '.join(x for x in ('((%s))' % t, p) if x),
+    'whole-parens': lambda t, p: '(%s)' % ' AND '.join(x for x in (t, p) if x),
 }
+SOLO_LAYOUTS = ('time-parens', 'time-double-parens', 'whole-parens')
 
 
 def members():
@@ -46,6 +51,9 @@ def members():
                     continue
                 for ng in (1, 2):
                     yield (tc, pf, ng, False, layout == 'part-first', layout)
+        for layout in SOLO_LAYOUTS:
+            for ng in (0, 1):
+                yield (tc, 'none', ng, False, layout == 'whole-parens', layout)
 
 
 def sql_of(m):
